@@ -11,3 +11,7 @@ chk('C03', 'fault_enumeration',
     'All 168 (version, level) block layouts are enumerated; for each, zero syndromes over the re-derived Table 9 de-interleaving are required for several data contents, and injected codeword errors (max weight per block, random, bursts on the matrix; all single-codeword errors at every position) must be corrected by an independent Berlekamp-Massey decoder to the identical data bits. Error patterns of weight >= 2 are sampled.',
     'Trusted: GF(256)/RS implementation in vlib/qrref.py (self-tested), Table 9 rows typed in from the standard. Multi-error patterns sampled; single errors enumerated (<= v10 quick, all thorough).',
     'fault injection into generated symbols + syndrome check / RS decoding by a reference model', 'DESIGN.md 4/C03')
+chk('C04', 'exploration',
+    'Both sides of every capacity boundary (5 modes x 5 levels x 3 micro settings x all admissible versions), every boundary with an exact / too small / larger requested version, and eci=True boundaries are enumerated exhaustively against a capacity model derived from ISO Tables 2, 3, 7; multi-part contents are sampled and re-costed from the decoded segment structure. Every accepted symbol is decoded to show that nothing was cut.',
+    'Trusted: capacity/bit-length model in vlib/qrref.py + vlib/common.py, reference decoder. Exhaustive over boundaries for mode-pure content, sampled for mixed content.',
+    'exhaustive boundary enumeration + Hypothesis search against a capacity reference model', 'DESIGN.md 4/C04')
